@@ -172,14 +172,18 @@ def run(ctx: Any, prog: Program) -> None:
     def nest(fn: ast.AST, obj: str) -> Tuple[List[str], str, ast.AST]:
         for n in walk_no_nested(fn):
             if isinstance(n, ast.For) and 'reversed(range(' in ast.unparse(n.iter):
-                sig = [ast.unparse(n.iter)]
+                def iters(e: ast.AST) -> List[str]:
+                    if isinstance(e, ast.Call) and dotted(e.func) in ('itertools.product', 'product'):
+                        return [ast.unparse(a) for a in e.args]        # product(a, b) is the nest `for .. in a: for .. in b:`
+                    return [ast.unparse(e)]
+                sig = iters(n.iter)
                 cur = n
                 while True:
                     inner = [s for s in cur.body if isinstance(s, ast.For)]
                     if len(inner) != 1:
                         break
                     cur = inner[0]
-                    sig.append(ast.unparse(cur.iter))
+                    sig += iters(cur.iter)
                 key = [ast.unparse(s.slice) for s in ast.walk(cur) if isinstance(s, ast.Subscript) and dotted(s.value) == f'{obj}._frames']
                 sig = [s.replace(obj + '.', '') for s in sig]
                 return sig, (key[0] if key else ''), n
@@ -382,20 +386,38 @@ def run(ctx: Any, prog: Program) -> None:
     if n_cy < 12:
         raise AnalysisError(f'only {n_cy} Cython codec pairs could be interpreted')
     # ---- F4 --------------------------------------------------------------------------------------------------
+    def offset_site(fn: ast.AST) -> Optional[ast.Assign]:
+        for n in walk_no_nested(fn):
+            if isinstance(n, ast.Assign) and isinstance(n.value, ast.BinOp) and re.fullmatch(r'\(y \* self\.width \+ x\) \* 4|4 \* \(y \* self\.width \+ x\)', ast.unparse(n.value)):
+                return n
+        return None
+
     for mname in ('__getitem__', '__setitem__'):
         fn = fr[mname]
-        guards = [n for n in walk_no_nested(fn) if isinstance(n, ast.If) and any(isinstance(s, ast.Raise) for s in n.body)]
-        offs = [n for n in walk_no_nested(fn) if isinstance(n, ast.Assign) and dotted(n.targets[0]) == 'off']
-        if len(guards) != 1 or len(offs) != 1 or guards[0].lineno > offs[0].lineno:
-            raise AnalysisError(f'Frame.{mname}: bounds guard / offset computation not found in order')
+        site_fn, qual = fn, f'Frame.{mname}'
+        if offset_site(fn) is None:
+            # the offset may come from a helper method of Frame that validates and returns it
+            helper_calls = [c for c in walk_no_nested(fn) if isinstance(c, ast.Call) and isinstance(c.func, ast.Attribute) and dotted(c.func.value) == 'self' and c.func.attr in fr and offset_site(fr[c.func.attr]) is not None]
+            if len(helper_calls) != 1:
+                raise AnalysisError(f'Frame.{mname}: pixel offset computation not found (directly or in one helper method)')
+            site_fn, qual = fr[helper_calls[0].func.attr], f'Frame.{helper_calls[0].func.attr}'
+        off = offset_site(site_fn)
+        assert off is not None
+        guards = [n for n in walk_no_nested(site_fn) if isinstance(n, ast.If) and any(isinstance(s, ast.Raise) for s in n.body)]
+        uses = [n for n in walk_no_nested(site_fn) if (isinstance(n, ast.Subscript) and dotted(n.value) == 'self._data') or isinstance(n, ast.Return)]
+        if len(guards) != 1:
+            raise AnalysisError(f'{qual}: expected exactly one raising bounds guard')
+        if any(u.lineno < guards[0].lineno for u in uses if not (isinstance(u, ast.Return) and u.value is None)):
+            ctx.check('C15.F4', False, vtf, guards[0], f'{qual}: the pixel buffer is indexed (or the offset returned) before the bounds guard', func=qual, text='guard precedes use')
+            continue
         test = guards[0].test
         bounds = accepted_region(test)
         for var, dim in (('x', 'self.width'), ('y', 'self.height')):
             lo = bounds.get((var, 'lo'))
             hi = bounds.get((var, 'hi'))
-            ctx.check('C15.F4', lo == '0', fn and vtf, guards[0], f'Frame.{mname}: `{ast.unparse(test)}` does not reject negative {var} (negative offsets index from the end of the buffer / return short slices)',
+            ctx.check('C15.F4', lo == '0', vtf, guards[0], f'{qual} (for Frame.{mname}): `{ast.unparse(test)}` does not reject negative {var} (a negative {var} lands on another row / indexes from the end of the buffer)',
                       func=f'Frame.{mname}', text=f'{var} lower bound')
-            ctx.check('C15.F4', hi == f'<{dim}', vtf, guards[0], f'Frame.{mname}: `{ast.unparse(test)}` accepts {var} == {dim.split(".")[1]} (needs {var} < {dim}): the offset then addresses the next row or the end of the buffer',
+            ctx.check('C15.F4', hi == f'<{dim}', vtf, guards[0], f'{qual} (for Frame.{mname}): `{ast.unparse(test)}` accepts {var} == {dim.split(".")[1]} (needs {var} < {dim}): the offset then addresses the next row or the end of the buffer',
                       func=f'Frame.{mname}', text=f'{var} strict upper bound')
     # ---- F5 --------------------------------------------------------------------------------------------------
     rf = fr['rescale_from']
@@ -504,6 +526,11 @@ def accepted_region(test: ast.AST) -> Dict[Tuple[str, str], str]:
         else:
             raise AnalysisError(f'bounds guard `{ast.unparse(t)}` is not an enumerated idiom')
     walk_reject(test)
+    # `0 <= off < 4 * W * H` (off = (y*W + x)*4): together with 0 <= x < W this bounds y; on its own it bounds neither
+    src = ast.unparse(test)
+    if re.search(r'0 <= off < (4 \* self\.width \* self\.height|len\(self\._data\))', src) and out.get(('x', 'lo')) == '0' and out.get(('x', 'hi')) == '<self.width':
+        out.setdefault(('y', 'lo'), '0')
+        out.setdefault(('y', 'hi'), '<self.height')
     return out
 
 
@@ -521,6 +548,9 @@ MUTANTS: List[Dict[str, Any]] = [
                {'file': '_cy_vtf_readwrite.pyx', 'find': "            pixels[4 * offset + R],\n            pixels[4 * offset + G],\n            pixels[4 * offset + B],\n        )", 'replace': "            pixels[4 * offset + 2],\n            pixels[4 * offset + G],\n            pixels[4 * offset + 0],\n        )"},
                {'file': '_cy_vtf_readwrite.pyx', 'find': "            pixels[4 * offset + B],\n            pixels[4 * offset + G],\n            pixels[4 * offset + R],\n        )", 'replace': "            pixels[4 * offset + 0],\n            pixels[4 * offset + G],\n            pixels[4 * offset + 2],\n        )"}],
      'expect': None, 'repairs': ['save_rgb565', 'save_bgr565']},
+    {'id': 'read_loop_product_ok', 'file': 'vtf.py', 'find': "            for frame_ind in range(frame_count):\n                for depth_or_cube in depth_seq:\n                    frame = vtf._frames[\n                        frame_ind,\n                        depth_or_cube,\n                        data_mipmap,\n                    ] = Frame(mip_width, mip_height)\n                    if not header_only:\n                        # noinspection PyProtectedMember\n                        frame._fileinfo = (file, high_res_offset, fmt)\n                        high_res_offset += fmt.frame_size(mip_width, mip_height)",
+     'replace': "            for frame_ind, depth_or_cube in itertools.product(range(frame_count), depth_seq):\n                if True:\n                    frame = vtf._frames[\n                        frame_ind,\n                        depth_or_cube,\n                        data_mipmap,\n                    ] = Frame(mip_width, mip_height)\n                    if not header_only:\n                        # noinspection PyProtectedMember\n                        frame._fileinfo = (file, high_res_offset, fmt)\n                        high_res_offset += fmt.frame_size(mip_width, mip_height)",
+     'expect': None, 'note': 'negative control: itertools.product in the same order is the same loop nest'},
     {'id': 'bounds_old', 'file': 'vtf.py', 'find': "        if not (0 <= x < self.width and 0 <= y < self.height):", 'replace': "        if x > self.width or y > self.height:", 'expect': 'C15.F4'},
     {'id': 'bounds_inclusive', 'file': 'vtf.py', 'nth': 1, 'find': "        if not (0 <= x < self.width and 0 <= y < self.height):", 'replace': "        if not (0 <= x <= self.width and 0 <= y < self.height):", 'expect': 'C15.F4'},
     {'id': 'bounds_or_form', 'file': 'vtf.py', 'find': "        if not (0 <= x < self.width and 0 <= y < self.height):", 'replace': "        if x < 0 or y < 0 or x >= self.width or y >= self.height:", 'expect': None, 'note': 'negative control: equivalent guard'},
